@@ -31,10 +31,10 @@ import seqcheck
 
 SPEC = {
     "prop": "C16",
-    "lean_targets": ["InfernoVerif.Props.C16", "InfernoVerif.Props.C16GlueProg", "InfernoVerif.Props.C16Run"],
-    "translate": ["HookProg"],
+    "lean_targets": ["InfernoVerif.Props.C16", "InfernoVerif.Props.C16GlueProg", "InfernoVerif.Props.C16Run", "InfernoVerif.Props.C16GlueNHook"],
+    "translate": ["HookProg", "NHookProg"],
     "driver_targets": ["InfernoVerif.Model.Hooks", "InfernoVerif.Drv.Proto"],
-    "prop_files": ["InfernoVerif/Props/C16.lean", "InfernoVerif/Props/C16GlueProg.lean", "InfernoVerif/Props/C16Run.lean"],
+    "prop_files": ["InfernoVerif/Props/C16.lean", "InfernoVerif/Props/C16GlueProg.lean", "InfernoVerif/Props/C16Run.lean", "InfernoVerif/Props/C16GlueNHook.lean"],
     "lemma_files": ["InfernoVerif/Lemmas/Hooks.lean", "InfernoVerif/Lemmas/HooksReal.lean"],
     "model_files": ["InfernoVerif/Model/Hooks.lean"],
     "driver": "drivers/C16.lean",
